@@ -148,6 +148,12 @@ def r10_2_loop_logs_reported(repo: Repo, rep: Report):
                 rep.check("R10.2", ok, m, st, f"__main__.{q}: {src(st)} -> warn_code(LOOP_BOUND, ...) if {var}.logs.bounded_loops", "this engine's loop log is never reported: a loop cut in it yields a clean result")
     if n < 3:
         raise AnalysisError(f"R10.2: only {n} SEVM constructions found in __main__ (setUp, test, target call expected)")
+    # an engine that is not bound to a name (constructed inline as an argument) has a log nobody can read afterwards
+    for c in ast.walk(m.tree):
+        if isinstance(c, ast.Call) and call_name(c) == "SEVM":
+            par = m.parents.get(c)
+            bound = isinstance(par, ast.Assign) and par.value is c and len(par.targets) == 1 and isinstance(par.targets[0], ast.Name)
+            rep.check("R10.2", bound, m, c, f"__main__.{m.qual(c)}: {src(c)} is bound to a local", "an engine constructed inline runs code (deployment, constructor) whose loop cuts are recorded in a log that is dropped with it")
     # the engine's log object is created per engine and only appended to
     ms, init = repo.fn("sevm.SEVM.__init__")
     rep.check("R10.2", "self.logs = HalmosLogs()" in src(init), ms, init, "SEVM.__init__: self.logs = HalmosLogs()", "each engine must own a fresh loop log")
